@@ -2,6 +2,7 @@ import Goat.Driver.Parse
 import Goat.Driver.Num
 import Goat.Driver.OMap
 import Goat.Driver.Load
+import Goat.Driver.TreeSort
 /-! goatmodel: one operation per input line, one canonical output line per operation. -/
 open Goat.Driver
 
@@ -13,6 +14,7 @@ def step (st : DriverState) (line : String) : DriverState × String :=
   | "parse" :: args => (st, parseCmd args)
   | "num" :: args => (st, numCmd args)
   | "load" :: args => (st, loadCmd args)
+  | "tsort" :: args => (st, tsortCmd args)
   | "omap" :: args => let (s, o) := omapCmd st.omap args; ({ st with omap := s }, o)
   | _ => (st, "bad-op")
 
